@@ -282,8 +282,8 @@ PROPS["C04"] = {
 # ---------------------------------------------------------------- C10
 PROPS["C10"] = {
     "parallel": 4,
-    "level_text": "Basic and Digest (MD5, SHA-256) on the real Sender -> Authorization.Marshal -> Unmarshal -> Verify chain with the server's own WWW-Authenticate challenge: symbolic user, password (printable, including ':'), realm and nonce (1-2 bytes each); request URLs with a path, without any path, with a query but no path, with a query and trailing slash. Completeness (right credentials accepted) and soundness (a different password / user / realm / nonce / method, ANY other (user, password) pair for Basic, or a scheme that is not enabled, is rejected); scheme admission for an arbitrary header kind against an arbitrary enabled set. 401 vs end of connection on the real ServerConn.handleRequestOuter / handleAuthError: an application-reported authentication failure on a request without credentials (no / unparsable / empty-user Authorization) gives 401 with one challenge per enabled method and keeps the connection; with credentials (Basic or Digest, user non-empty) the connection ends. Digest hashes are uninterpreted functions assumed collision-free (pairwise axioms over the applications on the path); crypto/subtle.ConstantTimeCompare by its functional contract.",
-    "level_note": "Trusted: MD5/SHA-256 collision freedom (the cryptographic assumption). Outside: the URL matching relaxations (URLs are concrete here), the client's single retry, field lengths above the registered bounds.",
+    "level_text": "Basic and Digest (MD5, SHA-256) on the real Sender -> Authorization.Marshal -> Unmarshal -> Verify chain with the server's own WWW-Authenticate challenge: symbolic user, password (printable, including ':'), realm and nonce (1-2 bytes each); request URLs with a path, without any path, with a query but no path, with a query and trailing slash. Completeness (right credentials accepted) and soundness (a different password / user / realm / nonce / method, ANY other (user, password) pair for Basic, or a scheme that is not enabled, is rejected); scheme admission for an arbitrary header kind against an arbitrary enabled set. URL soundness: a correctly signed digest whose URI is a tail / prefix / other resource / base-URL form on a non-SETUP method is rejected, the request URL, its exact request-URI and the SETUP base-URL forms are accepted (17-row table x 3 methods, symbolic password). Nonce: a challenge never replaces the nonce already issued on the connection, and credentials for a never-issued (empty) nonce are not accepted. 401 vs end of connection on the real ServerConn.handleRequestOuter / handleAuthError: an application-reported authentication failure on a request without credentials (no / unparsable / empty-user Authorization) gives 401 with one challenge per enabled method and keeps the connection; with credentials (Basic or Digest, user non-empty) the connection ends. Digest hashes are uninterpreted functions assumed collision-free (pairwise axioms over the applications on the path); crypto/subtle.ConstantTimeCompare by its functional contract.",
+    "level_note": "Trusted: MD5/SHA-256 collision freedom (the cryptographic assumption). Outside: symbolic URLs (request URLs and candidate digest URIs come from tables), the client's single retry, field lengths above the registered bounds.",
     "runs": [
         R("basic", "pkg/auth", "pkg/auth", ["ZzC10Basic"], flags={"concoff": True}, quick_params={"UL": 2, "PL": 3}, thorough_params={"UL": 3, "PL": 4}),
     ] + [
@@ -298,6 +298,8 @@ PROPS["C10"] = {
         for u in range(4)
     ] + [
         R("admission", "pkg/auth", "pkg/auth", ["ZzC10Admission"], flags={"concoff": True, "qtimeout": 120000, "unwind": 200}),
+        R("url-match", "pkg/auth", "pkg/auth", ["ZzC10URLMatch"], flags={"concoff": True, "qtimeout": 30000, "unwind": 200}),
+        R("nonce-issued", ".", "root", ["ZzC10NonceIssued"], params={"GOSTUB": 1}, extras={"pkg/ringbuffer": "extra/ringbuffer", "internal/asyncprocessor": "extra/asyncprocessor"}, flags={"concoff": True, "qtimeout": 60000, "unwind": 200}),
         R("auth-error", ".", "root", ["ZzC10AuthError"], params={"GOSTUB": 1}, extras={"pkg/ringbuffer": "extra/ringbuffer", "internal/asyncprocessor": "extra/asyncprocessor"}, flags={"concoff": True, "qtimeout": 60000}),
     ],
 }
